@@ -115,7 +115,9 @@ func runC22(c *Ctx) {
 	scope := c.P.Funcs(Mod + "/" + pkgProxy)
 	var creators []*ssa.Function
 	for _, fn := range scope {
-		for _, ci := range callsIn(fn, func(nm string, cc *ssa.CallCommon) bool { return strings.HasSuffix(nm, "chatHandler).queueCommandResult") }) {
+		for _, ci := range callsIn(fn, func(nm string, cc *ssa.CallCommon) bool {
+			return strings.HasSuffix(nm, "chatHandler).queueCommandResult")
+		}) {
 			args := ci.Common().Args
 			if mc, ok := args[len(args)-1].(*ssa.MakeClosure); ok {
 				creators = append(creators, mc.Fn.(*ssa.Function))
@@ -250,7 +252,9 @@ func runC22(c *Ctx) {
 	// leading slash removed (strings.TrimPrefix(msg, "/")); and the event is built from that value.
 	nMsg := 0
 	for _, fn := range scope {
-		for _, ci := range callsIn(fn, func(nm string, cc *ssa.CallCommon) bool { return strings.HasSuffix(nm, "chatHandler).queueCommandResult") }) {
+		for _, ci := range callsIn(fn, func(nm string, cc *ssa.CallCommon) bool {
+			return strings.HasSuffix(nm, "chatHandler).queueCommandResult")
+		}) {
 			nMsg++
 			msg := ci.Common().Args[1]
 			ok := false
@@ -347,7 +351,9 @@ func runC22(c *Ctx) {
 			if v {
 				// success or syntax error shown to the player
 				g1, n1 := MustCross(r, func(e Edge, cond ssa.Value, truth bool) bool { return errNilEdge(cond, truth, callMethod("Do")) })
-				g2, n2 := MustCross(r, func(e Edge, cond ssa.Value, truth bool) bool { return boolCallEdge(cond, truth, true, callSuffix("errors.As")) })
+				g2, n2 := MustCross(r, func(e Edge, cond ssa.Value, truth bool) bool {
+					return boolCallEdge(cond, truth, true, callSuffix("errors.As"))
+				})
 				c.Check("hasRun-true-only", "(true,…)@executeCommand", r, (g1 && n1 > 0) || (g2 && n2 > 0), "hasRun=true must mean the dispatcher accepted the command or reported a syntax error to the player")
 			}
 		}
